@@ -140,6 +140,20 @@ Fixpoint replay_txs (v : view) (txs : list txm) (evs : list (list event)) : view
   | _, _ => v
   end.
 
+(* nothing is indexed (and no balance can be spent) below the first rune height *)
+Definition replay_block (first height : N) (v : view) (b : block) (evs : list (list event)) : view :=
+  if height <? first then v else replay_txs v (b_txs b) evs.
+
+(* the views after every block *)
+Fixpoint replay_chain (first height : N) (v : view) (bs : list block)
+         (res : list (state * list (list event))) : list view :=
+  match bs, res with
+  | b :: bs', (_, evs) :: res' =>
+    let v' := replay_block first height v b evs in
+    v' :: replay_chain first (height + 1) v' bs' res'
+  | _, _ => []
+  end.
+
 (* ================================================================== wire *)
 (* op 2: chain (same encoding as op 1) -> for every block, for every transaction:
      n  { 0 idb idt amount | 1 idb idt | 2 vout idb idt amount | 3 idb idt amount }*n *)
